@@ -2,7 +2,7 @@
    the Discriminator, as translated from /repo on this run (VerifGen.K12): the model's [variants]
    (Discr.v) is what the code computes on the class graph. *)
 From Coq Require Import List Arith Bool Lia.
-From Verif Require Import Discr DiscrSpec DiscrProofs PyK_discr K12Defs.
+From Verif Require Import Discr DiscrSpec DiscrProofs PyK_discr K12Defs DiscrEmit DiscrEmitProofs.
 From VerifGen Require Import K12.
 Import ListNotations.
 
@@ -121,3 +121,19 @@ Proof.
   - destruct (s_sup s && negb (s_config s)); [|reflexivity]. apply eval_names_name.
 Qed.
 
+
+(* (T) the statements the source emits for the registry region of the field-mode dispatcher (translated on this run) are
+   the program DiscrEmitProofs.prog, for a nailed builder / a codec, with / without a tagger function *)
+Lemma emit_lookup_is_prog nailed tagger : emit_lookup nailed tagger = prog nailed tagger.
+Proof. destruct nailed, tagger; reflexivity. Qed.
+
+(* ... hence the model's field-mode clause Discr.field_body (registry hit with an own method / miss, refill in walk order
+   with own-tag or tagger registration, `continue` for a class without the key, rebuilt variants, retry, not found) IS
+   what running the emitted statements does *)
+Theorem code_field_body_is_emitted nailed enter top codec k s t x tr :
+  (forall v, flat (tr v) = match assoc (s_tgid s) (c_ttags (nth v (classes x) dummy_cls)) with Some l => l | None => [] end) ->
+  option_map (commit_lookup enter top codec k x)
+             (result_of (exec_block (classes x) s t (variants (classes x) s) (has_method codec x) tr
+                                    (emit_lookup nailed (s_tagger s)) (env0 (get_reg k (regs x)))))
+  = Some (field_body enter top codec k s t x).
+Proof. rewrite emit_lookup_is_prog. apply field_body_runs. Qed.
